@@ -2,6 +2,7 @@
 // fields, the real maps with random parameters, interior-supported data.
 #pragma once
 #include "common.hpp"
+#include <limits>
 #include "SM/KickMap.hpp"
 #include "SM/RFKickMap.hpp"
 #include "SM/DynamicRFKickMap.hpp"
@@ -13,6 +14,17 @@
 #include "Z/Impedance.hpp"
 
 namespace vm {
+
+// A history for a kick map: the wanted table, then a table in which every third row is not representable on the grid (displacement of
+// several grid lengths, or NaN - a row without charge may carry anything), then the wanted table again.  What the map does afterwards
+// must be what a freshly built map does with the wanted table.
+template <class KM> inline void kick_history_through_far_offsets(KM& km, const std::vector<vfps::meshaxis_t>& want, uint32_t n, uint64_t salt) {
+    std::vector<vfps::meshaxis_t> a = want; km.swapOffset(a);
+    std::vector<vfps::meshaxis_t> far = want;
+    for (size_t i = salt % 3; i < far.size(); i += 3) far[i] = ((i + salt) % 2) ? std::numeric_limits<vfps::meshaxis_t>::quiet_NaN() : (vfps::meshaxis_t)(((i + salt) % 4 < 2 ? 3.0 : -2.5) * n);
+    km.swapOffset(far);
+}
+
 using namespace vfps;
 using vh::Rng;
 
